@@ -23,10 +23,10 @@ ID = "C10"
 COQ_DIR = "C10"
 RUN_MOD = "C10.Run"
 MODEL_TARGETS = ["C10/Run.vo"]
-PROOF_TARGETS = ["C10/SgrLemmas.vo", "C10/Lemmas.vo", "C10/LemmasInv.vo", "C10/LemmasRun.vo", "C10/LemmasPure.vo", "C10/LemmasTop.vo", "C10/LemmasWit.vo"]
+PROOF_TARGETS = ["C10/SgrLemmas.vo", "C10/Lemmas.vo", "C10/LemmasInv.vo", "C10/LemmasRun.vo", "C10/LemmasPure.vo", "C10/LemmasTop.vo", "C10/LemmasSub.vo", "C10/LemmasWit.vo"]
 PROPS = ["C10/Props.v"]
 ALLOWED_AXIOMS = []
-IMPL_TIMEOUT = 20.0
+IMPL_TIMEOUT = 60.0
 COQ_SHARD = 40
 
 ESC = "\x1b"
@@ -712,7 +712,7 @@ def _synced_case(rng):
 
 def gen_cases(rng, tier):
     big = tier == "thorough"
-    cases = [_rand_history(rng, big) for _ in range(6000 if big else 420)]
+    cases = [_rand_history(rng, big) for _ in range(4000 if big else 420)]
     cases += [_reg_case(rng) for _ in range(200 if big else 12)]
     cases += [_synced_case(rng) for _ in range(200 if big else 12)]
     cases += [_hunt_case(rng) for _ in range(12 if big else 3)]
@@ -1580,9 +1580,13 @@ LEVEL_TEXT = ("Model level, unbounded histories / objects / allocation oracles, 
               "fresh configuration), single_palette_closed_form + history_independent_single_palette (coloured renderings through one "
               "palette -- pretty-printer, git history report programs: a closed formula of the object and of the configuration's own state "
               "(no_color flag, syntax map, registered classes); caches, identities, other configurations and earlier renderings do not enter).  "
-              "PARTIAL: history_independent_compound_partial (tables / record formatters in colour: top palette colours in closed form and "
-              "enum cells transparent, but the sub-palettes' colours are only shown well-formed, not given in closed form); the closed forms "
-              "are relative to the configuration's CURRENT syntax map, which grows when palette classes register their defaults.  "
+              "GUARDED: history_independent_compound_warm (tables / record formatters in colour: closed formula of object + configuration "
+              "once every syntax id used by the object's palette classes is present and resolved in the configuration, i.e. from the second "
+              "rendering on; warm_satisfiable shows a fresh configuration is cold and one rendering warms it).  "
+              "PARTIAL: history_independent_compound_partial (cold case: top palette colours in closed form, enum cells transparent, every "
+              "sub-palette has the colours of SOME registration-extension of the configuration in force -- which one depends on when it was "
+              "first requested); all closed forms are relative to the configuration's CURRENT syntax map, which grows when palette classes "
+              "register their defaults.  "
               "REFUTED on the faithful model: history_independent_statement (the full wording: equal to the rendering under a fresh "
               "configuration with the same user content) by history_independent_refuted / _statement_false = open finding late-registered-parent, "
               "enum_alias_refuted = open finding enum-cache-equal-keys (outside obj_ok), help_captured_refuted = open finding hdoc-captured-palette; "
